@@ -364,6 +364,10 @@ func (rt *router) simulate(fr *routeFrame) {
 			case *ssa.Return:
 				if fr.depth == 0 {
 					if len(x.Results) > 0 {
+						if bt, ok := x.Results[0].Type().Underlying().(*types.Basic); ok && bt.Kind() == types.Bool {
+							rt.run.ret = fmt.Sprint(rt.evalBool(fr, x.Results[0]))
+							return
+						}
 						rt.run.ret = rt.desc(fr, x.Results[0], 0)
 					} else {
 						rt.run.ret = "return"
